@@ -41,6 +41,9 @@ def generate(rng, tier):
         p = sc.gen_static(rng, n_leaves=rng.randint(1, 4), nest_depth=rng.choice([0, 0, 1]), faults=False,
                           tocks="dyadic", limit_p=0.6)
         out.append(sc.add_reruns(rng, p))
+    for p in sc.gen_broad(rng, 200 * n):
+        p["broad"] = True
+        out.append(p)
     return out
 
 
@@ -82,7 +85,39 @@ def _oracle_history(case, obs):
     return None
 
 
+def _oracle_broad(case, obs):
+    """Any program (dynamic, faults, ado, several runs): a scheduler that reports done = True has no listed doer
+    whose last lifecycle was cut short (Cease/Abort), and no doer cut short reports done = True."""
+    why = sc.broad_oracle(case, obs)
+    if why:
+        return why
+    tr = obs["trace"]
+    dones = dict((i, d) for i, d in obs["dones"])
+    if dones.get(0) is None:
+        return "doist.done is None after a run"
+    ending = {}
+    for k, i, _ in tr:
+        if k in ("Clean", "Cease", "Abort"):
+            ending[i] = k
+        elif k == "Enter":
+            ending[i] = "open"
+    # (an always-DoDoer's done means "all its deeds completed" while it keeps running — the tree's own
+    # test_dodoer_always documents done True for one stopped by the limit — so it is outside both rules)
+    always = {int(i) for i, d in case["defs"].items() if d["kind"] == "nest" and d["always"]}
+    for i, k in ending.items():
+        if k in ("Cease", "Abort") and dones.get(i) is True and i not in always:
+            return f"doer {i}'s last lifecycle ended by {k} but its done is True"
+    for sid, lst, _ in obs["scheds"]:
+        if dones.get(sid) is True and sid not in always:
+            cut = [x for x in lst if ending.get(x) in ("Cease", "Abort", "open")]
+            if cut:
+                return f"scheduler {sid} reports done = True but its listed doers {cut} were cut short"
+    return None
+
+
 def oracle(case, obs):
+    if case.get("broad"):
+        return _oracle_broad(case, obs)
     if case.get("again"):
         return _oracle_history(case, obs)
     if obs["raised"] != "none":
